@@ -50,13 +50,19 @@ type w1RepGen struct{ rep, gen int }
 
 type w1Oracle struct {
 	marker    map[w1AT]int // workload applied the marker of (a,T) to this agent generation
-	uniq      map[w1AT][]int64
+	uniq      map[w1UniqKey][]int64 // values the workload sent for a unique-kind key, per contributing (agent, second)
 	wire      map[w1AT]*w1Payload   // the payload carrying the workload rows of (a,T), once seen on the wire
 	payloads  map[string]*w1Payload // by content
 	acked     map[w1AT]bool
 	storedBy  map[w1RepGen]map[w1AT]int
 	storedAny map[w1AT]int
 	crashLost map[w1AT]bool // lost with a killed agent, within what the crash model allows
+
+	// net_corrupt_request (simulator facts only, never the warning text):
+	corruptAcked    map[w1AT]bool // a discard answer to a request the simulator damaged reached the live agent: deliberately rejected as undecodable
+	intactDelivered map[w1AT]int  // copies of the second's marker payload that reached an aggregator handler undamaged
+	intactAccepted  map[w1AT]int  // ... and were accepted into a bucket (long poll started)
+	corruptSeen     map[w1AT]int  // damaged copies that reached an aggregator handler
 
 	primarySeen map[uint32]int
 	spareSeen   [3]map[uint32]int // owner -> second -> receiving replica
@@ -67,13 +73,17 @@ type w1Oracle struct {
 
 func (o *w1Oracle) init(w *w1World) {
 	o.marker = map[w1AT]int{}
-	o.uniq = map[w1AT][]int64{}
+	o.uniq = map[w1UniqKey][]int64{}
 	o.wire = map[w1AT]*w1Payload{}
 	o.payloads = map[string]*w1Payload{}
 	o.acked = map[w1AT]bool{}
 	o.storedBy = map[w1RepGen]map[w1AT]int{}
 	o.storedAny = map[w1AT]int{}
 	o.crashLost = map[w1AT]bool{}
+	o.corruptAcked = map[w1AT]bool{}
+	o.intactDelivered = map[w1AT]int{}
+	o.intactAccepted = map[w1AT]int{}
+	o.corruptSeen = map[w1AT]int{}
 	o.primarySeen = map[uint32]int{}
 	for i := range o.spareSeen {
 		o.spareSeen[i] = map[uint32]int{}
@@ -83,11 +93,26 @@ func (o *w1Oracle) init(w *w1World) {
 
 func (w *w1World) noteMarkerGen(a int, T uint32, gen int) { w.or.marker[w1AT{a, T}] = gen }
 
-func (o *w1Oracle) noteUnique(a int, T uint32, vals []int64) {
-	o.uniq[w1AT{a, T}] = append([]int64(nil), vals...)
+// w1UniqKey: one row key (full tuple: time, metric, every int and string tag) inside the bucket of
+// one (agent, second).
+type w1UniqKey struct {
+	at  w1AT
+	key string
 }
 
-func (w *w1World) noteAckLocked(a int, T uint32) { w.or.acked[w1AT{a, T}] = true }
+func (o *w1Oracle) noteUnique(a int, T uint32, key string, vals []int64) {
+	k := w1UniqKey{w1AT{a, T}, key}
+	o.uniq[k] = append(o.uniq[k], vals...)
+}
+
+// noteAckLocked: an answer with discard=true reached the live agent for a request that carried the
+// marker payload of (a,T). Whether that answer was legal is clause (1)'s business (response record).
+func (w *w1World) noteAckLocked(a int, T uint32, corrupt bool) {
+	w.or.acked[w1AT{a, T}] = true
+	if corrupt {
+		w.or.corruptAcked[w1AT{a, T}] = true
+	}
+}
 
 func w1KeyString(time uint32, metric int32, tags []int32, stags [][]byte) string {
 	var sb strings.Builder
@@ -199,14 +224,18 @@ func (w *w1World) format(rec *w1Rec) string {
 	switch rec.typ {
 	case w1RecSend:
 		return head + " " + peer
+	case w1RecCorrupt:
+		// where and how the payload was damaged is not logged: the agent's payload bytes (item order, hence
+		// compressed length) are not a function of the choice vector, only the fact of the damage is
+		return head + " " + peer + " bucket payload damaged"
 	case w1RecNoConn:
 		return fmt.Sprintf("%s agent%d.g%d r%d %s T=%d spare=%v try=%d", head, rec.agent, rec.agentGen, rec.replica+1, w1KindNames[rec.kind], rec.T, rec.spare, rec.attempt)
 	case w1RecNetDrop:
 		return fmt.Sprintf("%s agent%d.g%d r%d %s T=%d try=%d lost=%s", head, rec.agent, rec.agentGen, rec.replica+1, w1KindNames[rec.kind], rec.T, rec.attempt, rec.note)
 	case w1RecDeliver:
-		return fmt.Sprintf("%s %s dup=%v accepted=%v filed=%s bucket=%d window=[%d,%d]", head, peer, rec.dup, rec.accepted, rec.where, rec.bucketTime, rec.oldest, rec.newest)
+		return fmt.Sprintf("%s %s dup=%v damaged=%v accepted=%v filed=%s bucket=%d window=[%d,%d]", head, peer, rec.dup, rec.corrupt, rec.accepted, rec.where, rec.bucketTime, rec.oldest, rec.newest)
 	case w1RecResp:
-		return fmt.Sprintf("%s %s dup=%v result=%s discard=%v warning=%s", head, peer, rec.dup, rec.note, rec.discard, rec.warn)
+		return fmt.Sprintf("%s %s dup=%v damaged=%v result=%s discard=%v warning=%s", head, peer, rec.dup, rec.corrupt, rec.note, rec.discard, rec.warn)
 	case w1RecAck:
 		return fmt.Sprintf("%s agent%d.g%d r%d %s T=%d try=%d result=%s discard=%v", head, rec.agent, rec.agentGen, rec.replica+1, w1KindNames[rec.kind], rec.T, rec.attempt, rec.note, rec.discard)
 	case w1RecCH:
@@ -282,7 +311,8 @@ func (o *w1Oracle) process(w *w1World, rec *w1Rec) (fails []w1Fail) {
 	window := uint32(w.cfg.window)
 	switch rec.typ {
 	case w1RecPanic:
-		fail(w.r.Prop, "panic", "panic:"+strings.SplitN(rec.where, " ", 2)[0], "system code panicked in %s: %s", rec.where, rec.note)
+		// C01 (4). The stack goes into the detail only (it is not replay-stable and never logged).
+		fail(w.r.Prop, "panic", "panic:"+strings.SplitN(rec.where, " ", 2)[0], "system code panicked in %s: %s\n%s", rec.where, rec.note, rec.stack)
 
 	case w1RecSend:
 		if rec.kind > w1KindHistoric {
@@ -305,6 +335,23 @@ func (o *w1Oracle) process(w *w1World, rec *w1Rec) (fails []w1Fail) {
 		}
 
 	case w1RecDeliver:
+		if rec.kind <= w1KindHistoric && rec.hasMarker {
+			if rec.corrupt {
+				o.corruptSeen[at]++
+				if rec.accepted {
+					// cannot happen while the handler decodes with the decoders w1Undecodable used
+					w.r.Probes["damaged_request_accepted_into_bucket"]++
+				}
+			} else {
+				o.intactDelivered[at]++
+				if rec.accepted {
+					o.intactAccepted[at]++
+				}
+				if o.corruptSeen[at] > 0 {
+					w.r.Probes["intact_copy_delivered_after_damaged_one"]++
+				}
+			}
+		}
 		if rec.kind > w1KindHistoric || !rec.accepted {
 			if rec.kind <= w1KindHistoric {
 				w.r.Probes["answered_without_longpoll"]++
@@ -356,6 +403,9 @@ func (o *w1Oracle) process(w *w1World, rec *w1Rec) (fails []w1Fail) {
 		case "future":
 			w.r.Probes["future_discarded"]++
 		}
+		if rec.corrupt && rec.note == "ok" && !rec.discard {
+			w.r.Probes["undecodable_answered_keep"]++
+		}
 		if rec.note != "ok" || !rec.discard {
 			break
 		}
@@ -368,12 +418,16 @@ func (o *w1Oracle) process(w *w1World, rec *w1Rec) (fails []w1Fail) {
 			break
 		}
 		switch {
+		case rec.corrupt:
+			// "undecodable": legal for exactly this (agent, second, attempt) because the simulator damaged
+			// the bucket payload of THIS request (fact carried on the call, not read from the warning)
+			w.r.Probes["undecodable_rejected"]++
 		case rec.T+window < nowUnix:
 			w.r.Probes["ack_of_second_outside_window"]++
 		case rec.T > nowUnix:
 			w.r.Probes["ack_of_future_second"]++
 		default:
-			fail("C01", "ack_without_store", w1KindNames[rec.kind]+":"+rec.warn, "replica r%d.g%d answered discard=true for second %d of agent%d (%s, warning class %q) at %s, but no body containing that second's marker row was stored by this replica process before, and the second is neither outside the historic window (%d s) nor in the future",
+			fail("C01", "ack_without_store", w1KindNames[rec.kind]+":"+rec.warn, "replica r%d.g%d answered discard=true for second %d of agent%d (%s, warning class %q) at %s, but no body containing that second's marker row was stored by this replica process before, the second is neither outside the historic window (%d s) nor in the future, and the simulator did not damage this request",
 				rec.replica+1, rec.repGen, rec.T, rec.agent, w1KindNames[rec.kind], rec.warn, w.ms(rec.at), window)
 		}
 
@@ -497,7 +551,12 @@ func (o *w1Oracle) checkBody(w *w1World, rec *w1Rec) (fails []w1Fail) {
 			e.hosts[c.host] = true
 			if c.hasUniq {
 				e.hasUniq = true
-				for _, v := range o.uniq[at] {
+				vals, ok := o.uniq[w1UniqKey{at, k}]
+				if !ok {
+					fail("unknown_contribution", "unique", "the payload of %v carries a unique state under key %s, for which the workload sent no unique values", at, k)
+					return
+				}
+				for _, v := range vals {
 					e.uniq[v] = true
 				}
 			}
@@ -609,6 +668,9 @@ func (o *w1Oracle) checkForgotten(w *w1World, inst *w1Inst, held map[uint32]stri
 	for _, at := range ats {
 		switch {
 		case o.acked[at]:
+			if o.corruptAcked[at] && held[at.T] == "" {
+				w.r.Probes["second_forgotten_after_undecodable_rejection"]++
+			}
 		case held[at.T] != "":
 			w.r.Extra["c01_seconds_still_held_at_check"]++
 		case o.crashLost[at]:
@@ -652,6 +714,13 @@ func (o *w1Oracle) agentCrashed(w *w1World, inst *w1Inst, image string) {
 
 func (o *w1Oracle) excused(w *w1World, at w1AT, nowUnix uint32) bool {
 	if o.crashLost[at] {
+		return true
+	}
+	// Deliberately rejected as undecodable and the rejection reached the agent, which may then forget
+	// the second: nobody holds it any more. Only that releases the second from the liveness clause: a
+	// damaged request whose answer was lost (or that was answered "keep") leaves the agent retrying,
+	// and the intact retry must end up stored like any other second.
+	if o.corruptAcked[at] {
 		return true
 	}
 	return w.cfg.faulty && at.T+uint32(w.cfg.window) < nowUnix
@@ -699,13 +768,24 @@ func (o *w1Oracle) final(w *w1World) {
 		}
 		if o.excused(w, at, nowUnix) {
 			w.r.Probes["second_legitimately_never_stored"]++
+			if o.corruptAcked[at] {
+				w.r.Probes["second_never_stored_after_undecodable_rejection"]++
+				// legal: an earlier intact copy was refused with "keep" (late for the recent conveyor) or sat in a
+				// bucket whose insert failed or whose replica died; the retry was then rejected as undecodable
+				if o.intactDelivered[at] > 0 {
+					w.r.Probes["never_stored_after_undecodable_rejection_although_intact_copy_delivered"]++
+				}
+				if o.intactAccepted[at] > 0 {
+					w.r.Probes["never_stored_after_undecodable_rejection_although_intact_copy_accepted"]++
+				}
+			}
 			continue
 		}
 		missing++
 		if missing <= 3 {
 			why := "it never reached the wire"
 			if o.wire[at] != nil {
-				why = fmt.Sprintf("it crossed the wire, acked=%v", o.acked[at])
+				why = fmt.Sprintf("it crossed the wire, acked=%v, copies delivered to aggregators: %d intact, %d damaged by the simulator", o.acked[at], o.intactDelivered[at], o.corruptSeen[at])
 			}
 			sig := "faulty"
 			if !w.cfg.faulty {
